@@ -78,7 +78,45 @@ func c09Main(e *Env) (*res.Result, error) {
 		bf := rapid.SampledFrom(forms).Draw(t, "baseform")
 		d := c.ParamsDoc(true, true)
 		d.Servers = bf.Servers
+		// half of the specs carry security (bearer / api keys in header and query, globally
+		// or per operation): the client sends the credential fields, the server reads them
+		if rapid.Bool().Draw(t, "with_security") {
+			// (header-borne schemes: the generated request type has a field for those; a key in
+			// the query has none, so the client cannot authenticate such an operation at all)
+			var names []string
+			for _, k := range [][]string{{"bearer"}, {"apikey-header"}, {"bearer", "apikey-header"}, {"apikey-header", "apikey-header"}}[rapid.IntRange(0, 3).Draw(t, "scheme_set")] {
+				n := c.PlainName("sec", "scheme")
+				c.Comps().SecuritySchemes = mapSet(c.Comps().SecuritySchemes, n, c.SchemeOf(k, n))
+				names = append(names, n)
+			}
+			req := func() *[]map[string][]string {
+				var alts []map[string][]string
+				for _, n := range names[:rapid.IntRange(1, len(names)).Draw(t, "nalts")] {
+					alts = append(alts, map[string][]string{n: {}})
+				}
+				return &alts
+			}
+			if rapid.Bool().Draw(t, "global_security") {
+				d.Security = req()
+			}
+			for _, pi := range d.Paths {
+				for _, mo := range pi.Ops() {
+					if rapid.IntRange(0, 2).Draw(t, "op_security") == 0 {
+						mo.Op.Security = req()
+					}
+				}
+			}
+			c.Tag("params:with-security")
+		}
 		return PkgSpec{Doc: d, Cfg: inproc.Config{DoNotEdit: true, Client: true, BasePath: bf.Flag}, Meta: map[string]any{"baseform": bf.Name, "tags": tagList(c.Tags)}}
 	})
 	return compiledMain(e, "C09", specs, false, 25*time.Minute)
+}
+
+func mapSet(m map[string]*specgen.SecurityScheme, k string, v *specgen.SecurityScheme) map[string]*specgen.SecurityScheme {
+	if m == nil {
+		m = map[string]*specgen.SecurityScheme{}
+	}
+	m[k] = v
+	return m
 }
